@@ -10,9 +10,9 @@ equality with the XML form.
 """
 import ast
 
-from ..astutil import calls_in, call_name, where, truthiness_tests
+from ..astutil import local_aliases, xtext, calls_in, call_name, where, truthiness_tests
 from ..cfg import build_cfg
-from ..dataflow import reaching_defs, def_value, node_of_ast
+from ..dataflow import sources_of, private_closure, reaching_defs, def_value, node_of_ast
 from ..facts import MODEL_CLASSES
 from ..model import AnalysisError, unparse, walk_no_nested
 from . import common_tables as ct
@@ -83,8 +83,9 @@ def run(prog, rep):
         rep.saw_function(f)
         tab = tabs[fname]
         accepted = set(tab["_args"]) | set(tab["_map"].values())
+        al = local_aliases(f.node)
         loops = [n for n in walk_no_nested(f.node) if isinstance(n, ast.For)
-                 and unparse(n.iter) == "odmlfmt.%s.arguments_keys" % fname]
+                 and xtext(n.iter, al) == "odmlfmt.%s.arguments_keys" % fname]
         rep.check(len(loops) == 1, "TAB-7", "%s loops over odmlfmt.%s.arguments_keys" % (f.name, fname), "ok",
                   "the %s writer does not iterate its own format table" % fname, f.where,
                   witness="a %s attribute is never written or written under a foreign key" % fname)
@@ -95,7 +96,7 @@ def run(prog, rep):
         mapped = set()
         for n in ast.walk(loop):
             if isinstance(n, ast.Assign) and isinstance(n.value, ast.Call) \
-                    and unparse(n.value.func) == "odmlfmt.%s.map" % fname \
+                    and xtext(n.value.func, al) == "odmlfmt.%s.map" % fname \
                     and len(n.value.args) == 1 and unparse(n.value.args[0]) == keyvar:
                 mapped |= set(t.id for t in n.targets if isinstance(t, ast.Name))
             if isinstance(n, ast.Assign) and isinstance(n.value, ast.Name) and n.value.id == keyvar:
@@ -119,24 +120,25 @@ def run(prog, rep):
                           "the writer stores under %s, which the reader does not accept for %s" % (ktxt, fname),
                           where(f, st), witness="attribute written under a key that is refused or ignored on load")
         # wrong-table use inside the function
-        others = [c for c in calls_in(f.node) if unparse(c.func).startswith("odmlfmt.")
-                  and not unparse(c.func).startswith("odmlfmt.%s." % fname)]
+        others = [c for c in calls_in(f.node) if xtext(c.func, al).startswith("odmlfmt.")
+                  and not xtext(c.func, al).startswith("odmlfmt.%s." % fname)]
         rep.check(not others, "TAB-7", "%s uses only the %s table" % (f.name, fname), "ok",
                   "%s consults another format's table: %s" % (f.name, [unparse(c.func) for c in others]), f.where)
     for fname, qn in sorted(READER_FUNCS.items()):
         f = prog.func(qn)
         rep.saw_function(f)
-        calls = [c for c in calls_in(f.node) if call_name(c) == "self.is_valid_attribute"]
-        good = bool(calls) and all(len(c.args) == 2 and unparse(c.args[1]) == "odmlfmt.%s" % fname for c in calls)
+        al = local_aliases(f.node)
+        calls = [c for c in calls_in(f.node) if call_name(c) == "%s.is_valid_attribute" % f.params[0]]
+        good = bool(calls) and all(len(c.args) == 2 and xtext(c.args[1], al) == "odmlfmt.%s" % fname for c in calls)
         rep.check(good, "TAB-7", "%s validates keys against odmlfmt.%s" % (f.name, fname), "ok",
                   "%s does not validate its keys against the %s table" % (f.name, fname), f.where,
                   witness="a key of another object kind is accepted / a valid key refused")
-        maps = [c for c in calls_in(f.node) if unparse(c.func).startswith("odmlfmt.") and unparse(c.func).endswith(".map")]
-        good = bool(maps) and all(unparse(c.func) == "odmlfmt.%s.map" % fname for c in maps)
+        maps = [c for c in calls_in(f.node) if xtext(c.func, al).startswith("odmlfmt.") and xtext(c.func, al).endswith(".map")]
+        good = bool(maps) and all(xtext(c.func, al) == "odmlfmt.%s.map" % fname for c in maps)
         rep.check(good, "TAB-7", "%s maps keys through odmlfmt.%s.map" % (f.name, fname), "ok",
                   "%s maps keys through another table: %s" % (f.name, [unparse(c.func) for c in maps]), f.where)
-        creates = [c for c in calls_in(f.node) if unparse(c.func).startswith("odmlfmt.") and unparse(c.func).endswith(".create")]
-        good = bool(creates) and all(unparse(c.func) == "odmlfmt.%s.create" % fname for c in creates)
+        creates = [c for c in calls_in(f.node) if xtext(c.func, al).startswith("odmlfmt.") and xtext(c.func, al).endswith(".create")]
+        good = bool(creates) and all(xtext(c.func, al) == "odmlfmt.%s.create" % fname for c in creates)
         rep.check(good, "TAB-7", "%s creates %s objects" % (f.name, fname), "ok",
                   "%s creates objects of another kind: %s" % (f.name, [unparse(c.func) for c in creates]), f.where)
     iva = prog.func("tools.dict_parser.DictReader.is_valid_attribute")
@@ -215,31 +217,31 @@ def run(prog, rep):
     rep.check(len(td) == 1 and unparse(td[0].func) == "DictWriter().to_dict", "SIB-3", "to_string: one DictWriter().to_dict call",
               "ok", "expected exactly one DictWriter().to_dict(...) call", ts.where)
     for name in ("from_string", "from_file"):
-        f = prog.func("tools.odmlparser.ODMLReader." + name)
-        rep.saw_function(f)
-        g = build_cfg(f)
-        tos = [c for c in calls_in(f.node) if unparse(c.func).endswith(".to_odml") and "RDF" not in unparse(c.func)]
-        rep.floor("SIB-3", len(tos), 2, "to_odml calls in %s" % f.short)
-        for c in tos:
-            recv = c.func.value
-            node = node_of_ast(g, c)
-            rtxt = unparse(recv)
-            if isinstance(recv, ast.Name):
-                defs = reaching_defs(g, node, recv.id)
-                rvals = [def_value(d, recv.id) for d in defs]
-                rtxt = "|".join(unparse(v) if v is not None else "?" for v in rvals)
-            good = rtxt.startswith("DictReader(") and len(c.args) == 1 and unparse(c.args[0]) == "self.parsed_doc"
-            rep.check(good, "SIB-3", "%s: %s" % (name, unparse(c)[:50]), "DictReader(...).to_odml(self.parsed_doc)",
-                      "dictionary is not handed unchanged to a DictReader: %s (receiver %s)" % (unparse(c)[:80], rtxt),
-                      where(f, c))
-        # every store to self.parsed_doc is a plain load call
-        stores = [n for n in walk_no_nested(f.node) if isinstance(n, ast.Assign)
-                  and any(unparse(t) == "self.parsed_doc" for t in n.targets)]
-        for st in stores:
-            fn = call_name(st.value) if isinstance(st.value, ast.Call) else unparse(st.value)
-            rep.check(fn in ("yaml.safe_load", "json.load", "json.loads"), "SIB-3",
-                      "%s: self.parsed_doc = %s(...)" % (name, fn), "plain parser call",
-                      "self.parsed_doc is computed by %s" % fn, where(f, st))
+        f0 = prog.func("tools.odmlparser.ODMLReader." + name)
+        rep.saw_function(f0)
+        n_tos = 0
+        for f in private_closure(f0):
+            me = f.params[0] if f.params else "self"
+            tos = [c for c in calls_in(f.node) if unparse(c.func).endswith(".to_odml") and "RDF" not in unparse(c.func)]
+            for c in tos:
+                n_tos += 1
+                recv = c.func.value
+                srcs = sources_of(prog, f, recv) if isinstance(recv, ast.Name) else [(f, recv)]
+                rtxt = "|".join(unparse(v) for _, v in srcs)
+                good = all(isinstance(v, ast.Call) and call_name(v) == "DictReader" for _, v in srcs) and len(c.args) == 1 \
+                    and unparse(c.args[0]) == "%s.parsed_doc" % me
+                rep.check(good, "SIB-3", "%s: %s" % (name, unparse(c)[:50]), "DictReader(...).to_odml(self.parsed_doc)",
+                          "dictionary is not handed unchanged to a DictReader: %s (receiver %s)" % (unparse(c)[:80], rtxt),
+                          where(f, c))
+            # every store to self.parsed_doc is a plain load call
+            stores = [n for n in walk_no_nested(f.node) if isinstance(n, ast.Assign)
+                      and any(unparse(t) == "%s.parsed_doc" % me for t in n.targets)]
+            for st in stores:
+                fn = call_name(st.value) if isinstance(st.value, ast.Call) else unparse(st.value)
+                rep.check(fn in ("yaml.safe_load", "json.load", "json.loads"), "SIB-3",
+                          "%s: self.parsed_doc = %s(...)" % (name, fn), "plain parser call",
+                          "self.parsed_doc is computed by %s" % fn, where(f, st))
+        rep.floor("SIB-3", n_tos, 1, "to_odml calls reachable from %s" % f0.short)
 
     # --------------------------------------------------------------- TRUTH-2
     rep.rule("TRUTH-2", "in the three DictWriter loops an attribute value is skipped only when unset "
@@ -306,9 +308,9 @@ def run(prog, rep):
                    and any(isinstance(t, ast.Subscript) for t in n.targets) for n in ast.walk(f.node))
         rep.check(good, "TAB-4", "%s writer emits list(tuple)" % fname, "ok", "tuple attributes are no longer emitted as lists", f.where)
         r = prog.func(READER_FUNCS[fname])
-        calls = [c for c in calls_in(r.node) if call_name(c) == "parse_cardinality"]
+        calls = [c for h in private_closure(r) for c in calls_in(h.node) if call_name(c) == "parse_cardinality"]
         guard = any(isinstance(n, ast.If) and "endswith('_cardinality')" in unparse(n.test)
-                    and any(call_name(c) == "parse_cardinality" for c in calls_in(n)) for n in ast.walk(r.node))
+                    and any(call_name(c) == "parse_cardinality" for c in calls_in(n)) for h in private_closure(r) for n in ast.walk(h.node))
         rep.check(bool(calls) and guard, "TAB-4", "%s reader parses *_cardinality entries" % fname, "ok",
                   "cardinality entries are no longer passed through parse_cardinality", r.where)
     rep.assume("json/yaml dump and load preserve the structure of dictionaries, lists and strings")
